@@ -283,7 +283,7 @@ V("desc-benign-count-before", ["C06"], DS, "benign",
 # ---- C07 / C05 / C08 / C02 kernel shape ------------------------------------------------------------------
 DEF = "ffcx/codegeneration/definitions.py"
 ACC = "ffcx/codegeneration/access.py"
-K = ["ACCUMULATE-ONLY", "NO-MUTABLE-STATIC", "ACCESSOR-ONLY", "PREFIX-OFFSETS", "SLOT-RESTRICTION", "MACRO-DOUBLING", "BOUND-SAMESRC"]
+K = ["ACCUMULATE-ONLY", "NO-MUTABLE-STATIC", "ACCESSOR-ONLY", "PREFIX-OFFSETS", "SLOT-RESTRICTION", "MACRO-DOUBLING", "BOUND-SAMESRC", "GEN-INTEGRAL"]
 V("ker-assign-on-A", ["C07", "C01"], K, "fire", (IG, "                body.append(L.AssignAdd(A[multi_index], expression))", "                body.append(L.Assign(A[multi_index], expression))"))
 V("ker-expr-assign-on-A", ["C07", "C04"], K, "fire", (EG, "                    quadparts.append(L.AssignAdd(A[multi_index], Brhs))", "                    quadparts.append(L.Assign(A[multi_index], Brhs))"))
 V("ker-table-not-const", ["C07"], K, "fire", (IG, "        return [L.ArrayDecl(table_symbol, values=table, const=True)]", "        return [L.ArrayDecl(table_symbol, values=table)]"))
@@ -366,7 +366,7 @@ V("be-benign-extra-row-entry", ["C09"], B, "benign", (CF, "        \"erf\": \"er
 
 # ---- C01 / C04 / C10 / C11 ---------------------------------------------------------------------------------
 AN = "ffcx/analysis.py"
-PL = ["PIPE-FLAGS", "FACT-LAWS", "RULE-COHERENCE", "SCOPE-KEY", "QMETA-FLOW", "QRULE-GROUP", "QUAD-FAMILY", "OPT-GATE", "EXPR-LAYOUT", "RULE-SCOPED-NAMES", "STALE-LOOPVAR"]
+PL = ["PIPE-FLAGS", "FACT-LAWS", "RULE-COHERENCE", "SCOPE-KEY", "QMETA-FLOW", "QRULE-GROUP", "QUAD-FAMILY", "OPT-GATE", "EXPR-LAYOUT", "RULE-SCOPED-NAMES", "STALE-LOOPVAR", "GEN-PARTITION"]
 V("pipe-no-integral-scaling", ["C01"], PL, "fire", (AN, "        do_apply_integral_scaling=True,", "        do_apply_integral_scaling=False,"))
 V("pipe-no-pullbacks", ["C01"], PL, "fire", (AN, "        do_apply_function_pullbacks=True,\n", ""))
 V("pipe-jacobian-not-preserved", ["C01"], PL, "fire", (AN, "        preserve_geometry_types=(ufl.classes.Jacobian,),\n        do_apply_restrictions=True,", "        preserve_geometry_types=(),\n        do_apply_restrictions=True,"))
@@ -391,7 +391,8 @@ V("qmeta-rule-eq-points-only", ["C11"], PL, "fire", (RU, "        return np.allc
 V("qmeta-facet-degree-plus-one", ["C11"], PL, "fire", (RU, "            pts[ft.cellname], wts[ft.cellname] = create_quadrature(\n                ft.cellname,\n                degree,", "            pts[ft.cellname], wts[ft.cellname] = create_quadrature(\n                ft.cellname,\n                degree + 1,"))
 V("opt-diagonal-ungated", ["C10"], PL, "fire", (IG, "            if self.ir.part == TensorPart.diagonal and block_rank == 2:\n                insert_rank = 1", "            if self.ir.part == TensorPart.diagonal:\n                insert_rank = 1"))
 V("opt-tolerance-dropped", ["C10"], PL, "fire", (IRI, "        rtol=p[\"table_rtol\"],\n        atol=p[\"table_atol\"],\n", ""))
-V("opt-tensor-rule-facets", ["C10"], PL, "fire", (REP, "    use_sum_factorization = sum_factorization and integral_type == \"cell\"", "    use_sum_factorization = sum_factorization"))
+# benign: create_quadrature_points_and_weights itself ignores the option for non-cell integrals (quadrature matrix), so the caller-side filter is redundant
+V("opt-tensor-rule-facets", ["C10"], PL, "benign", (REP, "    use_sum_factorization = sum_factorization and integral_type == \"cell\"", "    use_sum_factorization = sum_factorization"))
 V("expr-index-roles-swapped", ["C04"], PL, "fire", (EG, "                indices = [A_indices[0], fi_ci[1]] + list(A_indices[1:])", "                indices = [fi_ci[1], A_indices[0]] + list(A_indices[1:])"))
 V("expr-entity-from-cell", ["C04"], PL, "fire", (REP, "        elif tdim - 1 == pdim:\n            base_ir[\"entity_type\"] = \"facet\"", "        elif tdim - 1 == pdim:\n            base_ir[\"entity_type\"] = \"cell\""))
 V("pipe-benign-rename-fact", ["C01"], PL, "benign",
@@ -607,3 +608,74 @@ V("ixmap-ct-identity", ["C01", "C04"], ["INDEX-MAPS"], "fire", (IX, "        p2_
 V("ixmap-benign-rename", ["C01"], ["INDEX-MAPS"], "benign", (IX, "    for c1, p1 in enumerate(perm1):\n        for k, i in enumerate(multiindex):\n            if isinstance(i, Index):\n                p2[k] = p1[multiindex_to_ind1_map[k]]", "    for c1, point in enumerate(perm1):\n        p1 = point\n        for k, i in enumerate(multiindex):\n            if isinstance(i, Index):\n                p2[k] = p1[multiindex_to_ind1_map[k]]"))
 
 V("sig-libraries-dropped", ["C13"], ["SIG-COMPLETE"], "fire", (JIT, "            + str(list(cffi_libraries))\n            + str(sysconfig.get_config_var(\"CFLAGS\"))", "            + str(sysconfig.get_config_var(\"CFLAGS\"))"))
+
+# ---- create_quadrature_points_and_weights interpreted (OPT-GATE quadrature matrix) ------------------
+OG = ["OPT-GATE"]
+V("qm-quad-three-factors", ["C10"], OG, "fire", (RU, "                    create_quadrature(\"interval\", degree, rule, elements) for _ in range(2)", "                    create_quadrature(\"interval\", degree, rule, elements) for _ in range(3)"))
+V("qm-weights-from-points", ["C10"], OG, "fire", (RU, "[np.prod(p) for p in itertools.product(*[f[1] for f in tensor_factors[cell_name]])]", "[np.prod(p) for p in itertools.product(*[f[1] for f in tensor_factors[cell_name][:1]])]"))
+V("qm-factor-degree", ["C10"], OG, "fire", (RU, "                    create_quadrature(\"interval\", degree, rule, elements) for _ in range(3)", "                    create_quadrature(\"interval\", degree + 1, rule, elements) for _ in range(3)"))
+V("qm-gate-ignores-option", ["C10"], OG, "fire", (RU, "        if cell_name in [\"quadrilateral\", \"hexahedron\"] and use_tensor_product:", "        if cell_name in [\"quadrilateral\", \"hexahedron\"]:"))
+V("qm-refactor-factors-local", ["C10"], OG, "benign", (RU, "            pts[cell_name] = np.array(\n                [\n                    tuple(i[0] for i in p)\n                    for p in itertools.product(*[f[0] for f in tensor_factors[cell_name]])\n                ]\n            )", "            factors = tensor_factors[cell_name]\n            pts[cell_name] = np.array([tuple(i[0] for i in p) for p in itertools.product(*[f[0] for f in factors])])"))
+
+# ---- GEN-INTEGRAL ------------------------------------------------------------------------------------
+CI = "ffcx/codegeneration/C/integral.py"
+NI = "ffcx/codegeneration/numba/integral.py"
+GI = ["GEN-INTEGRAL", "DESC-FIELDS"]
+V("gi-slot-always-float64", ["C06", "C18"], GI, "fire", (CI, "    code[f\"tabulate_tensor_{np_scalar_type}\"] = (\n        f\".tabulate_tensor_{np_scalar_type} = tabulate_tensor_{factory_name},\"\n    )", "    code[\"tabulate_tensor_float64\"] = (\n        f\".tabulate_tensor_float64 = tabulate_tensor_{factory_name},\"\n    )"))
+V("gi-slot-real-type", ["C06", "C18"], GI, "fire", (CI, "    np_scalar_type = np.dtype(options[\"scalar_type\"]).name  # type: ignore", "    np_scalar_type = dtype_to_scalar_dtype(options[\"scalar_type\"]).name  # type: ignore"))
+V("gi-geom-type-scalar", ["C05", "C18"], GI, "fire", (CI, "        geom_type=dtype_to_c_type(dtype_to_scalar_dtype(options[\"scalar_type\"])),  # type: ignore", "        geom_type=dtype_to_c_type(options[\"scalar_type\"]),  # type: ignore"))
+V("gi-enabled-inverted", ["C05", "C06"], GI, "fire", (CI, "        values = \", \".join(\"1\" if i else \"0\" for i in ir.enabled_coefficients)", "        values = \", \".join(\"0\" if i else \"1\" for i in ir.enabled_coefficients)"))
+V("gi-object-name-without-cell", ["C06"], GI, "fire", (CI, "    factory_name = f\"{ir.expression.name}_{domain.name}\"", "    factory_name = f\"{ir.expression.name}\""))
+V("gi-numba-perm-flag-constant", ["C18"], GI, "fire", (NI, "    d[\"needs_facet_permutations\"] = \"True\" if ir.expression.needs_facet_permutations else \"False\"", "    d[\"needs_facet_permutations\"] = \"False\""))
+V("gi-numba-enabled-dropped", ["C18"], GI, "fire", (NI, "    vals = \", \".join(\"1\" if i else \"0\" for i in ir.enabled_coefficients)", "    vals = \", \".join(\"1\" for i in ir.enabled_coefficients)"))
+V("gi-refactor-local-scalar", ["C06", "C05", "C18"], GI, "benign", (CI, "    np_scalar_type = np.dtype(options[\"scalar_type\"]).name  # type: ignore", "    scalar_type = options[\"scalar_type\"]\n    np_scalar_type = np.dtype(scalar_type).name  # type: ignore"))
+V("gi-refactor-array-name", ["C06", "C05"], GI, "benign", (CI, "        code[\"enabled_coefficients\"] = f\"enabled_coefficients_{ir.expression.name}_{domain.name}\"", "        code[\"enabled_coefficients\"] = f\"enabled_coefficients_{factory_name}\""),
+  (CI, "            f\"bool enabled_coefficients_{ir.expression.name}_{domain.name}[{sizes}] = {{{values}}};\"", "            f\"bool enabled_coefficients_{factory_name}[{sizes}] = {{{values}}};\""))
+
+# ---- SUFFIX-ARITY: format_code / write_code interpreted ---------------------------------------------
+FG = "ffcx/formatting.py"
+SA_ = ["SUFFIX-ARITY"]
+V("fc-first-component-everywhere", ["C20", "C18"], SA_, "fire", (FG, '            code[i] += "".join([c[i] for c in block])', '            code[i] += "".join([c[0] for c in block])'))
+V("fc-skip-last-block", ["C20", "C18"], SA_, "fire", (FG, "    for block in code_blocks:\n", "    for block in code_blocks[:-1]:\n"))
+V("fc-reversed-entries", ["C20", "C18"], SA_, "fire", (FG, '            code[i] += "".join([c[i] for c in block])', '            code[i] += "".join([c[i] for c in reversed(block)])'))
+V("wc-nonstrict-zip", ["C20"], SA_, "fire", (FG, "zip(code, suffixes, strict=True)", "zip(code, suffixes)"))
+V("wc-suffix-only", ["C20"], SA_, "fire", (FG, "Path(output_dir) / (prefix + suffix)", "Path(output_dir) / (\"out\" + suffix)"))
+V("wc-append-mode", ["C20"], SA_, "benign", (FG, "    for source, suffix in zip(code, suffixes, strict=True):\n        with open(Path(output_dir) / (prefix + suffix), \"w\") as file:\n            file.write(source)",
+  "    for source, suffix in zip(code, suffixes, strict=True):\n        path = Path(output_dir) / (prefix + suffix)\n        with open(path, \"w\") as file:\n            file.write(source)"))
+V("fc-refactor-per-file", ["C20", "C18"], SA_, "benign", (FG, '    code = [""] * len(code_blocks[0][0])\n\n    for block in code_blocks:\n        for i in range(len(code)):\n            code[i] += "".join([c[i] for c in block])\n',
+  '    num_files = len(code_blocks[0][0])\n    code: list[str] = []\n    for i in range(num_files):\n        pieces = [c[i] for block in code_blocks for c in block]\n        code.append("".join(pieces))\n'))
+
+# ---- FAIL-RELEASE: release through a helper (wrapper recognition) -----------------------------------
+_TRY_F = "        try:\n            # remove c file so that it will not timeout next time\n            c_filename = cache_dir.joinpath(module_name + \".c\")\n            os.replace(c_filename, c_filename.with_suffix(\".c.failed\"))\n        except Exception:\n            pass\n        raise e\n\n    obj, module = _load_objects(cache_dir, module_name, form_names)"
+_TRY_E = _TRY_F.replace("form_names", "expr_names")
+_CALL_F = "        _mark_failed(cache_dir, module_name)\n        raise e\n\n    obj, module = _load_objects(cache_dir, module_name, form_names)"
+_CALL_E = _CALL_F.replace("form_names", "expr_names")
+_HELPER = "def _mark_failed(cache_dir, name):\n    try:\n        c_filename = cache_dir.joinpath(name + \".c\")\n        os.replace(c_filename, c_filename.with_suffix(\".c.failed\"))\n    except Exception:\n        pass\n\n\ndef compile_forms(\n"
+V("jit-release-wrapper", ["C15"], J, "benign", (JIT, "def compile_forms(\n", _HELPER), (JIT, _TRY_F, _CALL_F), (JIT, _TRY_E, _CALL_E))
+V("jit-release-wrapper-conditional", ["C15"], J, "fire", (JIT, "def compile_forms(\n", _HELPER.replace("    try:\n", "    if not cache_dir.exists():\n        return\n    try:\n")), (JIT, _TRY_F, _CALL_F), (JIT, _TRY_E, _CALL_E))
+V("jit-release-wrapper-wrong-suffix", ["C15"], J, "fire", (JIT, "def compile_forms(\n", _HELPER.replace(".c.failed", ".c.cached")), (JIT, _TRY_F, _CALL_F), (JIT, _TRY_E, _CALL_E))
+V("jit-release-wrapper-wrong-binding", ["C15"], J, "fire", (JIT, "def compile_forms(\n", _HELPER), (JIT, _TRY_F, _CALL_F.replace("_mark_failed(cache_dir, module_name)", "_mark_failed(cache_dir, \"libffcx\")")), (JIT, _TRY_E, _CALL_E))
+
+# ---- GEN-PARTITION -----------------------------------------------------------------------------------
+GP = ["GEN-PARTITION", "SCOPE-KEY"]
+V("gp-set-var-rule-only-key", ["C11", "C01"], GP, "fire", (IG, "        self.scopes[(domain, quadrature_rule)][v] = vaccess", "        self.scopes[(None, None)][v] = vaccess"))
+V("gp-get-var-piecewise-first", ["C11", "C01"], GP, "fire", (IG, "        f = self.scopes[(domain, quadrature_rule)].get(v)\n\n        # piecewise scope\n        if f is None:\n            f = self.scopes[(None, None)].get(v)\n        return f",
+  "        f = self.scopes[(None, None)].get(v)\n        if f is None:\n            f = self.scopes[(domain, quadrature_rule)].get(v)\n        return f"))
+V("gp-no-fallback", ["C11", "C01"], GP, "fire", (IG, "        if f is None:\n            f = self.scopes[(None, None)].get(v)\n        return f", "        return f"))
+V("gp-mode-filter-dropped", ["C11", "C01"], GP, "fire", (IG, "            if attr[\"status\"] != mode:\n                continue\n            v = attr[\"expression\"]\n\n            # Generate code only", "            v = attr[\"expression\"]\n\n            # Generate code only"))
+# benign: partitions and blocks of one rule are generated back to back, so the latest value in the shared scope is always this rule's own
+V("gp-store-under-none", ["C11", "C01"], GP, "benign", (IG, "                self.set_var(quadrature_rule, domain, v, vaccess)", "                self.set_var(None, None, v, vaccess)"))
+V("gp-refactor-scope-helper", ["C11", "C01"], GP, "benign",
+  (IG, "    def set_var(self, quadrature_rule, domain, v, vaccess):", "    def _scope(self, quadrature_rule, domain):\n        return self.scopes[(domain, quadrature_rule)]\n\n    def set_var(self, quadrature_rule, domain, v, vaccess):"),
+  (IG, "        self.scopes[(domain, quadrature_rule)][v] = vaccess", "        self._scope(quadrature_rule, domain)[v] = vaccess"),
+  (IG, "            if not v._ufl_is_literal_ and self.scopes[(domain, quadrature_rule)].get(v) is None:", "            if not v._ufl_is_literal_ and self._scope(quadrature_rule, domain).get(v) is None:"))
+
+# ---- formatter helpers inlined by fmt_eval -----------------------------------------------------------
+_PH = "def _paren_if(text, condition):\n    return f\"({text})\" if condition else text\n\n\nclass Formatter(FormatterInterface):\n    \"\"\"C formatter.\"\"\"\n"
+_BIN_OLD = "        if oper.lhs.precedence >= oper.precedence:\n            lhs = f\"({lhs})\"\n        if oper.rhs.precedence >= oper.precedence:\n            rhs = f\"({rhs})\""
+V("fmt-c-helper-paren", ["C16"], F, "benign", (CF, "class Formatter(FormatterInterface):\n    \"\"\"C formatter.\"\"\"\n", _PH),
+  (CF, _BIN_OLD, "        lhs = _paren_if(lhs, oper.lhs.precedence >= oper.precedence)\n        rhs = _paren_if(rhs, oper.rhs.precedence >= oper.precedence)"))
+V("fmt-c-helper-paren-strict", ["C16"], F, "fire", (CF, "class Formatter(FormatterInterface):\n    \"\"\"C formatter.\"\"\"\n", _PH),
+  (CF, _BIN_OLD, "        lhs = _paren_if(lhs, oper.lhs.precedence >= oper.precedence)\n        rhs = _paren_if(rhs, oper.rhs.precedence > oper.precedence)"))
+V("fmt-c-helper-paren-inverted", ["C16"], F, "fire", (CF, "class Formatter(FormatterInterface):\n    \"\"\"C formatter.\"\"\"\n", _PH.replace("if condition else text", "if not condition else text")),
+  (CF, _BIN_OLD, "        lhs = _paren_if(lhs, oper.lhs.precedence >= oper.precedence)\n        rhs = _paren_if(rhs, oper.rhs.precedence >= oper.precedence)"))
